@@ -11,8 +11,8 @@ package tif
 //@   requires tf != nil && record != nil && bmatch.validmatcher(tf.matcher, record) && forall j int :: 0 <= j && j < len(tf.thenSteps) ==> tf.thenSteps[j] != nil
 //@   modifies everything
 //@   preserves mem(base.LogTransformFunc), mem(base.LogFieldLocator), base.LogRecord.Fields
-//@   ensures[no-match-nothing-runs] !old(bmatch.matchall(tf.matcher, record)) ==> result == base.PASS && base.tlogn == old(base.tlogn)
-//@   ensures[match-runs-then-steps] old(bmatch.matchall(tf.matcher, record)) ==> exists k int :: 0 <= k && k <= len(tf.thenSteps) && base.tlogn == old(base.tlogn) + k
+//@   ensures[no-match-nothing-runs] !old(bmatch.matched(tf.matcher, record)) ==> result == base.PASS && base.tlogn == old(base.tlogn)
+//@   ensures[match-runs-then-steps] old(bmatch.matched(tf.matcher, record)) ==> exists k int :: 0 <= k && k <= old(len(tf.thenSteps)) && base.tlogn == old(base.tlogn) + k
 //@        && (forall j int :: 0 <= j && j < k ==> base.tlog[old(base.tlogn) + j] == ref(old(tf.thenSteps[j])))
 //@        && (result == base.DROP ==> k >= 1 && base.tres[old(base.tlogn) + k - 1] == 0)
-//@        && (result == base.PASS ==> k == len(tf.thenSteps))
+//@        && (result == base.PASS ==> k == old(len(tf.thenSteps)))
